@@ -526,6 +526,7 @@ class Effects:
                 out |= self._getattr2(n, f)
             elif isinstance(n, ast.Attribute) and isinstance(n.ctx, ast.Load):
                 out |= self._prop_load(n, f)
+                out |= self._optional_local(n, f)
             elif isinstance(n, ast.Subscript) and isinstance(n.ctx, ast.Load):
                 out |= self._registry_subscript(n, f)
                 out |= self._buffer_index(n, f)
@@ -682,6 +683,16 @@ class Effects:
             operands = [n.left, n.right]
         from .typesx import expr_type
         for o in operands:
+            if isinstance(o, ast.Attribute) and isinstance(o.value, ast.Name) and not o.attr.startswith("__"):
+                try:
+                    t0 = expr_type(self.model, f, o.value)
+                except Exception:
+                    t0 = None
+                if isinstance(t0, ClassInfo) and not self._is_message_class(t0) and o.value.id != "self" \
+                        and self._optional_field(t0, o.attr) and not self._none_guarded(o, n, f):
+                    self._note(f, n, ["TypeError"], f"`{ast.unparse(o)}` is None until it is set "
+                               f"({t0.name}.__init__ stores None)")
+                    return {"TypeError"}
             if isinstance(o, ast.Attribute) and isinstance(o.value, ast.Name) \
                     and o.value.id in [a.arg for a in f.node.args.args]:
                 try:
@@ -694,6 +705,212 @@ class Effects:
                     self._note(f, n, ["TypeError"], f"`{ast.unparse(o)}` is None when the AVP is absent")
                     return {"TypeError"}
         return set()
+
+    def _optional_local(self, n: ast.Attribute, f: FuncInfo) -> set[str]:
+        """AttributeError for `x.attr` where x may be None by the function's own account:
+        (a) x is (the single-assignment local holding) the result of a one-argument `.get(k)` -
+        a mapping lookup that answers None for a missing key - and no test of x guards the use;
+        (b) the function itself tests `x is None` / `x is not None` somewhere (its stated belief
+        that x can be None) and this use is not under such a test (Engler's contradiction rule).
+        Not a question of received values: evaluated in the fault profile too."""
+        base = n.value
+
+        def is_get(e):
+            return (isinstance(e, ast.Call) and isinstance(e.func, ast.Attribute) and e.func.attr == "get"
+                    and len(e.args) == 1 and not e.keywords
+                    and not any(w in ast.unparse(e.func.value).lower() for w in ("queue", "environ")))
+        if is_get(base):
+            self._note(f, n, ["AttributeError"], f"`{ast.unparse(base)[:60]}` is None for a missing key")
+            return {"AttributeError"}
+        if not isinstance(base, ast.Name):
+            return set()
+        info = self._optional_names(f).get(base.id)
+        if info is None:
+            return set()
+        if self._name_guarded(base.id, n, f) or self._flow_guarded(base.id, n, f):
+            return set()
+        self._note(f, n, ["AttributeError"], f"`{base.id}` can be None here ({info})")
+        return {"AttributeError"}
+
+    def _optional_names(self, f: FuncInfo) -> dict:
+        cache = self.__dict__.setdefault("_optnames", {})
+        if f in cache:
+            return cache[f]
+        assigns: dict[str, list] = {}
+        tested: dict[str, int] = {}
+        for x in A.walk_no_nested(f.node):
+            if isinstance(x, (ast.Assign, ast.AnnAssign)) and getattr(x, "value", None) is not None:
+                for t in A.store_targets(x):
+                    if isinstance(t, ast.Name):
+                        assigns.setdefault(t.id, []).append(x.value)
+                    elif isinstance(t, (ast.Tuple, ast.List)):
+                        for el in t.elts:
+                            if isinstance(el, ast.Name):
+                                assigns.setdefault(el.id, []).append(None)
+            elif isinstance(x, (ast.For, ast.comprehension)):
+                for el in ast.walk(x.target):
+                    if isinstance(el, ast.Name):
+                        assigns.setdefault(el.id, []).append(None)
+            elif isinstance(x, ast.Compare) and len(x.ops) == 1 and isinstance(x.ops[0], (ast.Is, ast.IsNot)) \
+                    and isinstance(x.left, ast.Name) and isinstance(x.comparators[0], ast.Constant) \
+                    and x.comparators[0].value is None:
+                tested.setdefault(x.left.id, x.lineno)
+        out = {}
+        for name, vals in assigns.items():
+            if len(vals) == 1 and vals[0] is not None and isinstance(vals[0], ast.Call) \
+                    and isinstance(vals[0].func, ast.Attribute) and vals[0].func.attr == "get" \
+                    and len(vals[0].args) == 1 and not vals[0].keywords \
+                    and not any(w in ast.unparse(vals[0].func.value).lower() for w in ("queue", "environ")):
+                out[name] = f"assigned from `{ast.unparse(vals[0])[:50]}`, None for a missing key"
+        for name, vals in assigns.items():
+            if name in out or len(vals) != 1 or not isinstance(vals[0], ast.Call):
+                continue
+            try:
+                cands = self.resolve_call(vals[0], f)
+            except Exception:
+                cands = []
+            if cands and all(self._may_return_none(g) for g in cands):
+                out[name] = f"{cands[0].qualname}() returns None on some path"
+        for name, ln in tested.items():
+            # tested for None by this function; only names bound once (or parameters): a re-bound
+            # name would need flow-sensitivity
+            if name in out:
+                continue
+            nb = len(assigns.get(name, []))
+            is_param = name in [a.arg for a in f.node.args.args + f.node.args.kwonlyargs]
+            if (nb == 1 and not is_param) or (nb == 0 and is_param):
+                out[name] = f"the function tests it for None at line {ln}"
+        cache[f] = out
+        return out
+
+    def _may_return_none(self, g: FuncInfo) -> bool:
+        """A repository function with both a valued return and a path that yields None
+        (`return None`, bare `return`, or falling off the end)."""
+        cache = self.__dict__.setdefault("_retnone", {})
+        if g in cache:
+            return cache[g]
+        rets = [x for x in A.walk_no_nested(g.node) if isinstance(x, ast.Return)]
+        valued = [r for r in rets if r.value is not None and not (
+            isinstance(r.value, ast.Constant) and r.value.value is None)]
+        none = [r for r in rets if r not in valued]
+        is_gen = any(isinstance(x, (ast.Yield, ast.YieldFrom)) for x in A.walk_no_nested(g.node))
+
+        def completes(stmts) -> bool:
+            if not stmts:
+                return True
+            last = stmts[-1]
+            if isinstance(last, (ast.Return, ast.Raise)):
+                return False
+            if isinstance(last, ast.If):
+                return completes(last.body) or completes(last.orelse)
+            if isinstance(last, ast.While) and isinstance(last.test, ast.Constant) and last.test.value \
+                    and not any(isinstance(x, ast.Break) for x in ast.walk(last)):
+                return False
+            if isinstance(last, ast.Try):
+                return completes(last.finalbody) if last.finalbody and not completes(last.finalbody) else (
+                    completes(last.orelse or last.body) or any(completes(h.body) for h in last.handlers))
+            if isinstance(last, ast.With):
+                return completes(last.body)
+            return True
+        r = bool(valued) and not is_gen and not g.is_property and (bool(none) or completes(g.node.body))
+        cache[g] = r
+        return r
+
+    def _flow_guarded(self, name: str, n: ast.AST, f: FuncInfo) -> bool:
+        """Flow-sensitive second opinion: on every path to the statement that holds the use, a
+        test has established that *name* is set (`is not None`, truthy, isinstance)."""
+        try:
+            from .cfg import cfg_of
+            from .atoms import Atomizer, must_facts
+            cache = self.__dict__.setdefault("_flowcfg", {})
+            if f not in cache:
+                g = cfg_of(f, inline=False)
+                cache[f] = (g, Atomizer(self.model, f.module, getattr(f, "cls", None)))
+            g, at = cache[f]
+            holders = [x for x in g.nodes if x.kind in ("stmt", "test", "iter", "with") and x.ast is not None
+                       and any(y is n for e in (x.own_exprs() if x.kind in ("iter", "with") else [x.ast])
+                               for y in ast.walk(e))]
+            if not holders:
+                return False
+            for h in holders:
+                fs = must_facts(g, at, h)
+                if not any(f_[0] == name and ((f_[1] == "is" and f_[2] is None and f_[3] is False)
+                                              or (f_[1] == "truthy" and f_[3] is True)
+                                              or (str(f_[0]).startswith(f"isinstance({name}") and f_[3] is True))
+                           for f_ in fs) and not any(
+                        str(f_[0]).replace(" ", "").startswith(f"isinstance({name},") and f_[3] is True for f_ in fs):
+                    return False
+            return True
+        except Exception:
+            return True         # cannot decide: no claim
+
+    def _name_guarded(self, name: str, n: ast.AST, f: FuncInfo) -> bool:
+        """A test that mentions *name* encloses the use, precedes it in an `and`/`or` chain or a
+        conditional expression, or is a guard clause (a test mentioning the name whose body leaves
+        or re-binds) earlier in an enclosing block; or the use is in an except/else of a try whose
+        body mentions it (conservative: any mention of the name in a controlling test counts)."""
+        import re as _re
+        pat = _re.compile(r"\b" + _re.escape(name) + r"\b")
+        par = A.parents(f.node)
+        cur = n
+        while cur in par:
+            p_ = par[cur]
+            if isinstance(p_, (ast.If, ast.While, ast.IfExp)) and cur is not p_.test:
+                if pat.search(ast.unparse(p_.test)):
+                    return True
+            if isinstance(p_, ast.BoolOp) and cur in p_.values:
+                idx = p_.values.index(cur)
+                if any(pat.search(ast.unparse(v)) for v in p_.values[:idx]):
+                    return True
+            if isinstance(p_, ast.comprehension) and any(pat.search(ast.unparse(i)) for i in p_.ifs):
+                return True
+            if isinstance(p_, (ast.ListComp, ast.SetComp, ast.GeneratorExp, ast.DictComp)):
+                if any(pat.search(ast.unparse(i)) for g_ in p_.generators for i in g_.ifs):
+                    return True
+            if isinstance(p_, ast.Assert):
+                return True
+            for fld in ("body", "orelse", "finalbody"):
+                blk = getattr(p_, fld, None)
+                if isinstance(blk, list) and cur in blk:
+                    for prev in blk[:blk.index(cur)]:
+                        if isinstance(prev, ast.If) and pat.search(ast.unparse(prev.test)):
+                            leaves = prev.body and isinstance(prev.body[-1], (ast.Return, ast.Raise, ast.Continue, ast.Break))
+                            rebinds = any(isinstance(t, ast.Name) and t.id == name
+                                          for st in ast.walk(prev) if isinstance(st, (ast.Assign, ast.AnnAssign))
+                                          for t in A.store_targets(st))
+                            if leaves or rebinds:
+                                return True
+                        if isinstance(prev, ast.Assert) and pat.search(ast.unparse(prev.test)):
+                            return True
+            cur = p_
+        return False
+
+    def _optional_field(self, ci: ClassInfo, attr: str) -> bool:
+        """The class's constructor leaves the field None (every store to it in __init__ is the
+        constant None) and its annotation, if any, admits None."""
+        cache = self.__dict__.setdefault("_optfield", {})
+        k = (ci, attr)
+        if k in cache:
+            return cache[k]
+        r = False
+        try:
+            for c in self.model.mro(ci):
+                init = getattr(c, "methods", {}).get("__init__")
+                if init is None:
+                    continue
+                vals = []
+                for x in A.walk_no_nested(init.node):
+                    if isinstance(x, (ast.Assign, ast.AnnAssign)) and getattr(x, "value", None) is not None:
+                        for t in A.store_targets(x):
+                            if A.dotted(t) == f"self.{attr}":
+                                vals.append(x.value)
+                if vals:
+                    r = all(isinstance(v, ast.Constant) and v.value is None for v in vals)
+                    break
+        except Exception:
+            r = False
+        cache[k] = r
+        return r
 
     def _is_message_class(self, ci) -> bool:
         try:
